@@ -310,7 +310,7 @@ def check_program(spec, shots, res):
             res.violation(unroll_sig(mode, "measurement-count", spec, shots), f"{mode}(shots={shots}) measures {mu.shape[0]} quadratures, the explicit loop {mu_ref.shape[0]}", dict(case, mode=mode))
             continue
         d = max(np.max(np.abs(mu - mu_ref)), np.max(np.abs(V - V_ref)))
-        if d > 1e-9:
+        if d > 1e-9 * max(1.0, float(np.max(np.abs(V_ref)))):  # rounding grows with the size of the entries (repeated squeezers)
             res.violation(unroll_sig(mode, "joint-state", spec, shots), f"joint state of the measured pulses after {mode}(shots={shots}) differs from the explicit loop by {d:.3g} for {spec_label(spec)}", dict(case, mode=mode))
     # sample routing on the real engine (homodyne only: the Gaussian simulator samples it through numpy.random)
     if spec["meas"] == "MHom":
